@@ -28,7 +28,7 @@ CHECKS = {
 CHECKS.update({
  "C01": ("exploration", "random + structured byte strings, field sweeps, pair enumeration; crash / allocation oracle (catch_unwind, counting allocator, watchdog)",
          "Every buffer length 0..=32 with uniform and structured contents, every value of every narrow ME field, every 13-bit code, all ordered pairs of a pool of position reports; pattern-fill payloads (every 6-bit code / byte value repeated) under every type and BDS code; each accepted frame is rendered, decoded again through from_reader inside a longer stream (one in four), its velocity computed, paired in both orders and fed to a long-lived tracker with hostile receiver positions/ranges; one aircraft heard 150 000 times and one on a 20 000-report flight. The harness installs a log subscriber that enables every call site (as the clients do), so the arguments of the libraries' log statements are evaluated. No panic, bounded allocation per decode+render; a suspected hang is re-run three times under a CPU-time limit with its tracker context.",
-         "Absence of a crash on 2^112 frames cannot be established; a hang is reported as inconclusive (exit 2) by a 20 s watchdog.", "3 C01"),
+         "Absence of a crash on 2^112 frames cannot be established; a suspected hang (60 s watchdog) is confirmed by three bounded re-runs, otherwise inconclusive (exit 2).", "3 C01"),
  "C02": ("exploration", "exhaustive DF x length grid + exhaustive type-31 reserved/version grid + generated frames; acceptance predicate + prefix metamorphic relation",
          "All 32 DF codes at all lengths 0..=32, the complete subtype x version x reserved-group grid of type 31, structured frames truncated / exact / over-long; accepted iff the statement says so, right variant, checksum over exactly the frame, tail bytes without influence; uniform all-zero / all-one buffers in every cell; from_reader on a reader positioned inside a stream gives the same verdict, variant and checksum.",
          "ME 13-14 != 0 in a surface operational status is left open (DO-260B reserves, library ignores).", "3 C02"),
